@@ -1,0 +1,20 @@
+//go:build verif
+
+// Verification contracts for topic creation / partition growth in the metadata stores (property C21; comment-only,
+// read by /verif/govc). This file contains no executable code.
+
+package metadata
+
+//@ spec func topicsNamed(ts []protocol.MetadataTopic) bool = forall i int :: 0 <= i && i < len(ts) ==> ts[i].Topic != nil
+
+// Growing or creating never removes a topic and never lowers any topic's partition count (also on every error return).
+//@ func (s *InMemoryStore) CreatePartitions
+//@   requires topicsNamed(s.state.Topics) && s.topicConfigs != nil
+//@   ensures [C21.grow_never_drops_or_shrinks_a_topic] len(s.state.Topics) == old(len(s.state.Topics)) && forall i int :: 0 <= i && i < len(s.state.Topics) ==> s.state.Topics[i].Topic == old(s.state.Topics[i].Topic) && len(s.state.Topics[i].Partitions) >= old(len(s.state.Topics[i].Partitions))
+//@   loop 2 invariant len(s.state.Topics) == old(len(s.state.Topics)) && base(s.state.Topics) == old(base(s.state.Topics)) && forall k int :: 0 <= k && k < len(s.state.Topics) ==> s.state.Topics[k].Topic == old(s.state.Topics[k].Topic) && len(s.state.Topics[k].Partitions) >= old(len(s.state.Topics[k].Partitions))
+
+// The broker persists its WHOLE local snapshot: doing so with an unconditional Put loses another broker's concurrent
+// acknowledged creation (recorded known finding; see /verif/known_findings.json).
+//@ func (s *EtcdStore) persistSnapshotLocked
+//@   never_calls [C21.broker_persist_is_compare_and_swap] go.etcd.io/etcd/client/v3.KV.Put
+//@   frame_only
